@@ -9,7 +9,7 @@ import collections, json, os, random, shutil
 from vlib import common as C, engine as E, querygen as QG, genquery as GQ
 from checks import c01
 
-LEAN_MODULES = ["Cpf.Props.C14"]
+LEAN_MODULES = ["Cpf.Props.C14", "Cpf.Lemmas.LexLayout", "Cpf.Lemmas.LexLayoutQ"]
 
 
 def run(run):
